@@ -16,7 +16,8 @@ RULE = ('kinds: loop = loop(list,tuple,dict)(f) on random nestings of lists / tu
         '(thorough: 6) futures / coroutines / tasks under a real asyncio event loop, the futures resolved by a driver in EVERY permutation, recording the final value and '
         'whether waiter had returned before each completion. Each observation is compared in Coq with M_loop (wrapped / zipper / as_list / as_tuple / collect). The oracle '
         're-derives the expected result from the property text: a plain recursive map where a companion of the same length (dicts: same keys) is indexed, anything else '
-        'is passed whole (claimed for companions without a nested sub-container of the matching length / keys; the others are compared with the model only), positional == keyword, '
+        'is passed whole (no exemption: a different-shape companion holding a sub-container of the matching length / keys is searched recursively by _item_by_i / _item_by_key instead of being broadcast - '
+        'reported as KNOWN-FINDING c19_companion_deep_match; such companions are generated on purpose and one is a corpus seed), positional == keyword, '
         'zipper rows / ValueError from the lengths, idempotence, awaitables substituted by their results. non-trivial = nesting depth >= 2 with a companion, a lib call on a '
         'container, >= 2 zipper arguments, or >= 2 awaitables; distinct by the whole case')
 EXPLANATION = ('theorems C19_* (coq/props/C19.v) hold for every nesting, companion list and schedule by structural induction / induction over the schedule; the correspondence ties '
@@ -26,13 +27,14 @@ TRUSTED = ['modelled, not verified: the asyncio scheduler (event loop, gather, F
            'modelled, not verified: Python argument binding (*args / **kwargs / defaults) as f_named; str methods behind the lifted text helpers (leaf values are carried, the oracle '
            'applies the helper to each bare leaf)']
 ASSUMPTIONS = ['dict keys are strings (sortable)', 'no keyword named axis', 'containers are exactly list, tuple, dict, OrderedDict, Dict, dictattr',
-               'broadcast of a different-shape companion is claimed when it has no nested sub-container of the matching length / keys (_item_by_i / _item_by_key search such companions recursively)']
+               'known finding: a companion of different length / keys that contains a sub-container of the matching length / keys is not broadcast (C19_broadcast_refuted); broadcast is proved for companions without one']
 EXHAUSTIVE = {'quick': False, 'thorough': False}
 LEVEL_TEXT = ('machine-checked Coq theorems for all nestings / companions / schedules: shape and container types preserved, each leaf = f(leaf, companions at its path), element-wise matching vs broadcast, '
               'positional = keyword, zipper broadcast / ValueError iff, as_list idempotent, waiter bookkeeping schedule independent; model tied to the code by differential runs compared in vm_compute')
 LEVEL_NOTE = ('partial for waiter: the asyncio scheduler is modelled, not verified - bookkeeping proved for every schedule, the real event loop sampled over all enumerated completion orders of <= 6 awaitables. '
               'as_tuple idempotence is proved only outside the class "result is a 1-tuple holding a list" (as_tuple([[1,2]]) -> ([1,2],) -> (1,2)): C19_as_tuple_idempotent_partial / _refuted. '
-              'The theorems are about the repaired code (companions handed down as tuples, fixes/C19.patch)')
+              'Broadcast of "everything else" is proved for scalars and for containers without a sub-container of the matching length / keys; for the others it is refuted (C19_broadcast_refuted, known finding c19_companion_deep_match: '
+              'f([1,2], [[1,2],[3,4],[5,6]]) hands [1,3,5] to the first leaf). The theorems are about the repaired code (companions handed down as tuples, fixes/C19.patch)')
 TECHNIQUE = 'Coq proof (structural induction on nested values, induction over the completion schedule) + differential correspondence in vm_compute + property-text oracle'
 
 # ---------------------------------------------------------------- structures (JSON <-> python <-> Coq)
@@ -118,34 +120,18 @@ def render(x):
         return ['D', CLS.index(type(x))] + [[int(k[1:]), render(v)] for k, v in x.items()]
     raise TypeError('cannot render %r' % type(x))
 
-class OutOfDomain(Exception):
-    pass
-
-def _plain_i(c, n):
-    return not isinstance(c, (list, tuple)) or (len(c) != n and all(_plain_i(v, n) for v in c))
-def _plain_k(c, keys):
-    return not isinstance(c, dict) or (sorted(c.keys()) != keys and all(_plain_k(v, keys) for v in c.values()))
-
 def lift(g, arg, pos, kw):
-    """the property text: same container type and shape, leaves g(leaf, companions); a companion of the same length
-    (dicts: same keys) is matched element by element / by key, everything else is broadcast"""
+    """the property text, literally: same container type and shape, leaves g(leaf, companions); a companion of the same
+    length (dicts: same keys) is matched element by element / by key, EVERYTHING else is broadcast (passed whole)"""
     if isinstance(arg, (list, tuple)):
         n = len(arg)
         def pick(c, i):
-            if isinstance(c, (list, tuple)) and len(c) == n:
-                return c[i]
-            if not _plain_i(c, n):
-                raise OutOfDomain()
-            return c
+            return c[i] if isinstance(c, (list, tuple)) and len(c) == n else c
         return type(arg)([lift(g, arg[i], [pick(c, i) for c in pos], {k: pick(c, i) for k, c in kw.items()}) for i in range(n)])
     if isinstance(arg, dict):
         keys = sorted(arg.keys())
         def pickk(c, key):
-            if isinstance(c, dict) and sorted(c.keys()) == keys:
-                return c[key]
-            if not _plain_k(c, keys):
-                raise OutOfDomain()
-            return c
+            return c[key] if isinstance(c, dict) and sorted(c.keys()) == keys else c
         return type(arg)({key: lift(g, arg[key], [pickk(c, key) for c in pos], {k: pickk(c, key) for k, c in kw.items()}) for key in arg.keys()})
     return g(arg, *pos, **kw)
 
@@ -182,15 +168,12 @@ def impl_loop(case):
     except Exception as e:
         return {'status': 'ok', 'obs': ['ERR', 'unrenderable'], 'viol': 'result is not a nesting of the argument\'s container types: %r' % (res,)}
     viol = None
-    try:
-        if named:
-            exp = lift(lambda a, b=None, c=None: (a, b, c), arg, pos, kw)
-        else:
-            exp = lift(lambda a, *args, **k: (a, args, k), arg, pos, kw)
-        if not same(res, exp):
-            viol = 'loop(...)(f)(%r, *%r, **%r) = %r but leaf-wise mapping with matched / broadcast companions gives %r' % (arg, pos, kw, res, exp)
-    except OutOfDomain:
-        pass
+    if named:
+        exp = lift(lambda a, b=None, c=None: (a, b, c), arg, pos, kw)
+    else:
+        exp = lift(lambda a, *args, **k: (a, args, k), arg, pos, kw)
+    if not same(res, exp):
+        viol = 'loop(...)(f)(%r, *%r, **%r) = %r but leaf-wise mapping with matched / broadcast companions gives %r' % (arg, pos, kw, res, exp)
     if viol is None and named and pos:
         # positional == keyword
         allkw = dict(kw); allkw.update({'bc'[i]: c for i, c in enumerate(pos)})
@@ -229,10 +212,7 @@ def impl_lib(case):
         res = fn(arg, **kw)
     except Exception as e:
         return {'status': err(e), 'obs': ['ERR', err(e)], 'viol': '%s on a nested structure raised %s: %s' % (case['fn'], type(e).__name__, str(e)[:150])}
-    try:
-        exp = lift(lambda leaf, **k: fn(leaf, **k), arg, [], kw)
-    except OutOfDomain:
-        return {'status': 'ok', 'obs': ['ERR', 'domain'], 'viol': None}
+    exp = lift(lambda leaf, **k: fn(leaf, **k), arg, [], kw)
     obs = guided(case['arg'], res, exp, [0])
     viol = None
     if _bad(obs):
@@ -401,7 +381,7 @@ def companion(rng, arg, ctr):
         return same_shape(rng, arg, ctr), 'same'
     if r < 0.65:
         return same_shape(rng, arg, ctr, cut=rng.choice([1, 2])), 'sametop'
-    if r < 0.9:
+    if r < 0.96:
         return rand_struct(rng, rng.choice([1, 2, 3]), ctr), 'diff'
     # deep: a container of another length holding copies of the argument's shape
     inner = [same_shape(rng, arg, ctr, cut=1, swap=False) for _ in range(rng.choice([1, 3, 4]))]
